@@ -516,8 +516,8 @@ Lemma tstep_kept_other fuel d ts t id :
 Proof.
   destruct t as [o|id' m|id']; simpl; intros H.
   - destruct (step fuel d (fst ts) o) as [[st' x] ev]. reflexivity.
-  - destruct (step fuel d (fst ts) (Calls m)) as [[st' x] ev]. simpl.
-    destruct x; try reflexivity. cbv beta. rewrite (Nat.eqb_sym id id'), H. reflexivity.
+  - destruct (do_calls d (fst ts) m) as [[st' x] ev]. simpl.
+    destruct x; try reflexivity. rewrite (Nat.eqb_sym id id'), H. reflexivity.
   - reflexivity.
 Qed.
 
@@ -538,7 +538,7 @@ Lemma snapshots_are_values fuel d ts id m l rest :
   tstep fuel d (tfinal fuel d ts1 rest) (TRecheck id) = (tfinal fuel d ts1 rest, ORecords l, []).
 Proof.
   intros Hk Hr ts1. simpl. rewrite (tfinal_kept fuel d ts1 rest id Hr). unfold ts1. clear ts1.
-  simpl in *. destruct (step fuel d (fst ts) (Calls m)) as [[st' x] ev]. simpl in *. subst x. simpl.
+  simpl in *. destruct (do_calls d (fst ts) m) as [[st' x] ev]. simpl in *. subst x. simpl.
   now rewrite Nat.eqb_refl.
 Qed.
 
